@@ -34,14 +34,29 @@ Theorem C09_at_rest_nothing_is_lost :
 Proof. exact PowerLoss.lose_rest. Qed.
 Print Assumptions C09_at_rest_nothing_is_lost.
 
+(* power loss during the FIRST open of an empty directory, after any number of its calls (with
+   pre_create_cas_dirs = true also in the middle of the mkdir loop of the fan-out tree), any
+   victim set; holds in both sync modes *)
+Theorem C09_first_open_powerloss :
+  forall H : bytes -> bytes,
+    (forall b, length (H b) = 32%nat) -> (forall b, Forall (fun x => x < 256) (H b)) ->
+  forall cfg : config, 0 < c_n cfg -> c_n cfg < 2 ^ 64 ->
+  forall (n : nat) (victims : path -> bool),
+    exists m' os w',
+      open_with_recover H cfg (init_world (loss_open H cfg n victims empty_fs) None) = (Ok (m', os), w')
+      /\ Inv' H cfg m' (wfs w') [].
+Proof. exact PowerLossOpen.first_open_powerloss. Qed.
+Print Assumptions C09_first_open_powerloss.
+
 (* whole histories with power losses (during operations and during recovery), where bytes that
-   survive a power loss count as durable afterwards (`settle`) *)
+   survive a power loss count as durable afterwards (`settle`); from an empty directory, either
+   choice of pre_create_cas_dirs *)
 Theorem C09_powerloss_history :
   forall H : bytes -> bytes,
     (forall b, length (H b) = 32%nat) -> (forall b, Forall (fun x => x < 256) (H b)) ->
   forall cfg : config, 0 < c_n cfg -> c_sync cfg = true ->
   forall h : list evl,
-    c_pre cfg = false -> c_n cfg < 2 ^ 64 ->
+    c_n cfg < 2 ^ 64 ->
     NoCollide H (flat_map evl_contents h) -> extl_fits cfg [] h ->
     N.of_nat (length h) < 2 ^ 32 - 1 ->
     exists (hd0 : handle) (w0 : world),
